@@ -13,11 +13,12 @@ elements, their lists, `parent_object_` back references, the shared `gds_collect
 shape of the graph.  The function, step for step:
 
   newdoc = deepcopy(doc) if overwrite is False else doc
-  referenced_ids: for cell in newdoc.cells, morphology before biophysics, `attr is not None and element is None`
+  all_cells = newdoc.cells + newdoc.cell2_ca_poolses   (repaired tree: Cell2CaPools cells are visited too)
+  referenced_ids: for cell in all_cells, morphology before biophysics, `attr is not None and element is None`
   for inc in newdoc.includes: incdoc = read_neuroml2_file(inc.href) (new objects; `files` says what the loader
       finds; nothing: `sys.exit()`); definitions whose id is in referenced_ids go into the dicts (later wins)
   then the document's own lists (the document wins)
-  for cell in newdoc.cells: for each of the two slots that is a reference without element:
+  for cell in all_cells: for each of the two slots that is a reference without element:
       `cell.<elem> = _deepcopy_into(dict[cell.<attr>], cell)` (KeyError here if the id is missing), `cell.<attr> = None`
   `_deepcopy_into(e, cell)`: memo = {}; if e.parent_object_ is not None: memo[id(e.parent_object_)] = cell;
       copy.deepcopy(e, memo)
@@ -142,15 +143,21 @@ structure Result where
   docCopy : Nat
 deriving Repr
 
+/-- `all_cells = newdoc.cells + newdoc.cell2_ca_poolses`: the members of the two list objects, as a new Python list
+    (read once, before anything else happens) -/
+def allCells (h : Heap) (newdoc : Val) : List Val :=
+  listItems h (getattrV h newdoc "cells") ++ listItems h (getattrV h newdoc "cell2_ca_poolses")
+
 /-- the body of the function after `newdoc` has been chosen -/
 def fixInPlace (files : Files) (h : Heap) (newdoc : Val) : Result :=
-  let refs := referencedIds h (listItems h (getattrV h newdoc "cells"))
+  let cells := allCells h newdoc
+  let refs := referencedIds h cells
   match forEachE (includeStep files refs) (listItems h (getattrV h newdoc "includes")) ⟨[], [], h⟩ with
   | (t, some e) => ⟨t.heap, .error e, [], 0⟩
   | (t, none) =>
     let em := addDefs t.heap refs t.em (listItems t.heap (getattrV t.heap newdoc "morphology"))
     let eb := addDefs t.heap refs t.eb (listItems t.heap (getattrV t.heap newdoc "biophysical_properties"))
-    match forEachE (fixCell em eb) (listItems t.heap (getattrV t.heap newdoc "cells")) ⟨t.heap, []⟩ with
+    match forEachE (fixCell em eb) cells ⟨t.heap, []⟩ with
     | (st, none) => ⟨st.heap, .ok newdoc, st.copies, 0⟩
     | (st, some e) => ⟨st.heap, .error e, st.copies, 0⟩
 
